@@ -573,7 +573,11 @@ def message_parser_consumes_bodies(ctx, P):
         if not outs:
             ctx.functions.discard(p)
             continue
-        drains = set(i for i, t in b.calls(r'BufReadParsing::drain$|PacketBodyReader::<.*>::drain$|parser::ensure_\w+$|parser::\w*consum\w*$|parser::\w*drain\w*$'))
+        # a drain, or a helper of this module that drains the reader it is given
+        helpers = [hp for hp, hr in ctx.f.bodies.items() if hp.startswith('composed::message::parser::') and hp != p
+                   and core.B(hr).calls(r'BufReadParsing::drain$|PacketBodyReader::<.*>::drain$')]
+        hrx = '|'.join(re.escape(h) + '$' for h in helpers)
+        drains = set(i for i, t in b.calls(r'BufReadParsing::drain$|PacketBodyReader::<.*>::drain$' + ('|' + hrx if hrx else '')))
         for k, (i, t) in enumerate(outs):
             n += 1
             # a reader that was never parsed from (created and handed on) does not exist here: every site follows a parse or a skip
